@@ -4,7 +4,14 @@ from cobald.composite.uniform import UniformComposite
 
 from ..core import Task
 from ..symx import And, Implies, Not, Or
-from .common import RecPool, same
+from .common import RecPool, numeric_stubs, same
+import cobald.composite.weighted as _w_mod
+import cobald.composite.uniform as _u_mod
+
+# int() / float() / math.floor / math.ceil as seen from the modules under test act on proxies (stubs, listed in evidence)
+for _m in (_w_mod, _u_mod):
+    for _mod, _name, _val in numeric_stubs(_m):
+        setattr(_mod, _name, _val)
 
 PROPERTY = "C07"
 MOD = __name__
@@ -35,7 +42,7 @@ MANIFEST = {
             "bounded; child values assumed >= 0 (documented pool model)",
     "design_ref": "DESIGN.md §3 C07",
 }
-STUBS = []
+STUBS = ["int / float / math.floor / math.ceil (as seen from the modules under test) accept number proxies"]
 ASSUMPTIONS = [
     "children report supply, utilisation, allocation >= 0 and are well-behaved (store the demand they are given)",
     "D >= 0", "floats are exact reals (no IEEE rounding)",
@@ -205,10 +212,37 @@ def extra(tier, seed):
                          "property": PROPERTY, "kind": "custom", "module": MOD})
         except AssertionError:
             pass
-    return {"violations": errs, "invalid_weights_checked": 4}
+    # tiny and huge magnitudes in real IEEE doubles (enumerated, concrete): the symbolic run treats floats as
+    # reals and cannot see overflow / underflow of intermediate results
+    import math
+    m = 0
+    for weight in (None, "supply", "utilisation", "allocation"):
+        for scale in (1e-200, 1e-100, 1e-20, 1.0, 1e20, 1e100):
+            for D in (1e-100, 1.0, 1e10, 1e150):
+                if D * scale * 4 > 1e300:
+                    continue  # the product D * weight itself leaves the double range: outside the claim
+                for ws in ((1.0, 3.0), (0.0, 2.0, 2.0), (1.0, 1.0, 2.0)):
+                    m += 1
+                    kids = [RecPool(supply=w * scale, utilisation=w * scale, allocation=w * scale) for w in ws]
+                    comp = UniformComposite(*kids) if weight is None else WeightedComposite(*kids, weight=weight)
+                    comp.demand = D
+                    shares = [k.demand for k in kids]
+                    total_w = sum(ws)
+                    want = [D / len(ws)] * len(ws) if weight is None else [D * w / total_w for w in ws]
+                    ok = all(math.isfinite(x) for x in shares) and math.isclose(sum(shares), D, rel_tol=1e-9) \
+                        and all(math.isclose(x, y, rel_tol=1e-9, abs_tol=D * 1e-12) for x, y in zip(shares, want))
+                    if not ok:
+                        errs.append({"harness": "ieee_magnitudes", "label": "shares are finite, sum to D and are proportional at tiny / huge magnitudes",
+                                     "inputs": {"weight": weight, "scale": scale, "D": D, "weights": list(ws), "shares": [repr(x) for x in shares]},
+                                     "params": {}, "status": "confirmed", "property": PROPERTY, "kind": "custom", "module": MOD})
+    return {"violations": errs, "invalid_weights_checked": 4, "ieee_magnitude_states": m}
 
 
 def replay(v):
+    if v.get("harness") == "ieee_magnitudes":
+        hit = [x for x in extra("quick", 0)["violations"] if x["harness"] == "ieee_magnitudes"]
+        print("REPRODUCED" if hit else "not reproduced on this tree")
+        return 1 if hit else 0
     try:
         WeightedComposite(RecPool(), weight=v["inputs"]["weight"])
     except AssertionError:
